@@ -201,11 +201,13 @@ def ref_eval(t, ns, env):
     return fn(env, ns, *vals)
 
 
-def ref_run(prog, contents=None, alias=False):
-    """The value the program text denotes when asked of a datastore holding `contents`; raises RefError(class)."""
+def ref_run(prog, contents=None, alias=False, ctx=None):
+    """The value the program text denotes when asked of a datastore holding `contents` under the query name
+    and period ctx = (name, start, end as offsets from T_START in us); raises RefError(class)."""
     env = Env(contents or {}, alias)
-    ns = {"True": True, "False": False, "true": True, "false": False, "NAME": QNAME,
-          "STARTTIME": T_START.isoformat(), "ENDTIME": T_END.isoformat()}
+    name, start, end = ctx or (QNAME, 0, (T_END - T_START) // US)
+    ns = {"True": True, "False": False, "true": True, "false": False, "NAME": name,
+          "STARTTIME": (T_START + start * US).isoformat(), "ENDTIME": (T_START + end * US).isoformat()}
     for name, e in prog:
         ns[name] = ref_eval(e, ns, env)
     if "RETURN" not in ns:
@@ -228,12 +230,12 @@ def canon_ref(v):
     raise TypeError(f"reference value of type {type(v)}")
 
 
-def denotation(prog, contents=None):
+def denotation(prog, contents=None, ctx=None):
     """("value", canonical value) | ("error", class) | ("ambiguous", None): see the module docstring."""
     outs = []
     for alias in (False, True):
         try:
-            outs.append(("value", canon_ref(ref_run(prog, contents, alias))))
+            outs.append(("value", canon_ref(ref_run(prog, contents, alias, ctx))))
         except RefError as e:
             outs.append(("error", e.cls))
     return outs[0] if outs[0] == outs[1] else ("ambiguous", None)
